@@ -158,6 +158,12 @@ func (k *K) AddSource(s Source) { k.srcs = append(k.srcs, s) }
 var qsamples = []metrics.Sample{
 	{Name: "/sched/goroutines/runnable:goroutines"},
 	{Name: "/sched/goroutines/running:goroutines"},
+	{Name: "/sched/goroutines/not-in-go:goroutines"},
+}
+
+func quiet() bool {
+	metrics.Read(qsamples)
+	return qsamples[0].Value.Uint64() == 0 && qsamples[1].Value.Uint64() <= 1 && qsamples[2].Value.Uint64() == 0
 }
 
 // Progress is bumped by the controller; the watchdog outside the bubble reads it.
@@ -169,13 +175,13 @@ func (k *K) Quiesce() {
 	Progress++
 	for {
 		runtime.Gosched()
-		metrics.Read(qsamples)
-		if qsamples[0].Value.Uint64() == 0 && qsamples[1].Value.Uint64() <= 1 {
+		if quiet() {
 			// Confirm once more after another yield: a goroutine readied by a system
-			// goroutine (timer, GC) between the read and now would show up here.
+			// goroutine between the read and now would show up here. (The garbage
+			// collector is kept off during a run - see the worker - because goroutines
+			// parked in a GC assist and idle mark workers are invisible to these counters.)
 			runtime.Gosched()
-			metrics.Read(qsamples)
-			if qsamples[0].Value.Uint64() == 0 && qsamples[1].Value.Uint64() <= 1 {
+			if quiet() {
 				return
 			}
 		}
